@@ -645,9 +645,13 @@ Section VertexEvaluated.
   Hypothesis sd_ok : sd_tol_ok = true.
   Hypothesis teq_refl : forall t, In t tracks -> teq t t = true.
 
-  Theorem vertex_skeleton_total_evaluated_lemma : exists r, find_vertices tracks = Ok r.
+  (* the same with (V2) asked only of the beamline clusters that are actually compared (:45-51): (V2bc) *)
+  Theorem vertex_skeleton_total_evaluated_bc_lemma :
+    (forall bc a b, beamline_clusters (filter is_primary tracks) = Ok bc -> In a bc -> In b bc ->
+       fcmp (sumF (map t_rad (fst a))) (sumF (map t_rad (fst b))) <> None) ->
+    exists r, find_vertices tracks = Ok r.
   Proof.
-    unfold Fit.find_vertices.
+    clear rad_cmp. intros rad_cmp_bc. unfold Fit.find_vertices.
     set (primary := filter is_primary tracks).
     assert (Hp : forall t, In t primary -> In t tracks) by (intros t H; apply filter_In in H; tauto).
     destruct (beamline_clusters_ok_min primary Hp) as (bc & Eb & Pb). rewrite Eb. cbn [bind].
@@ -665,7 +669,7 @@ Section VertexEvaluated.
       - exists None. split; [reflexivity | discriminate].
       - destruct (max_by_res_ok (fun a b => unwrap (fcmp (sumF (map t_rad (fst a))) (sumF (map t_rad (fst b)))))
                     (fun c => In c bc)) with (l := t) (acc := c) as (m & Em & Hm).
-        + intros x y Hx Hy. apply unwrap_some. apply rad_cmp; apply Hbc; assumption.
+        + intros x y Hx Hy. apply unwrap_some. exact (rad_cmp_bc bc x y Eb Hx Hy).
         + apply Hc. now left.
         + intros x Hx. apply Hc. now right.
         + rewrite Em. cbn [bind]. exists (Some m). split; [reflexivity | ]. intros b Hb. now inversion Hb; subst. }
@@ -690,6 +694,17 @@ Section VertexEvaluated.
         rewrite (cnt_perm _ _ _ Pb). apply cnt_filter_le.
       + cbn [bind]. eauto.
     - cbn [bind remove_all Fit.remove_all]. eauto.
+  Qed.
+
+  Theorem vertex_skeleton_total_evaluated_lemma : exists r, find_vertices tracks = Ok r.
+  Proof.
+    apply vertex_skeleton_total_evaluated_bc_lemma. intros bc a b Eb Ha Hb.
+    assert (Hp : forall t, In t (filter is_primary tracks) -> In t tracks) by (intros t H; apply filter_In in H; tauto).
+    destruct (beamline_clusters_ok_min _ Hp) as (bc' & Eb' & Pb). rewrite Eb in Eb'. inversion Eb'; subst bc'.
+    assert (Hbc : forall c, In c bc -> forall t, In t (fst c) -> In t tracks).
+    { intros c Hcb t Ht. apply Hp. apply (Permutation_in _ Pb). apply in_concat. exists (fst c). split; [ | exact Ht].
+      apply in_map. exact Hcb. }
+    apply rad_cmp; apply Hbc; assumption.
   Qed.
 End VertexEvaluated.
 
